@@ -252,7 +252,15 @@ fn main() {
     let mut residue = adds.clone();
     residue.push(Op::Flush);
     residue.extend([Op::Update(1, 0), Op::Update(2, 1), Op::Remove(3), Op::Add(7)]);
+    // one recovery arm at a time: the only residue is a crashed remove / a crashed update
+    // (a recovery that also re-indexes another document can mask what one arm forgets)
+    let mut remove_only = adds.clone();
+    remove_only.extend([Op::Flush, Op::Remove(3)]);
+    let mut update_only = adds.clone();
+    update_only.extend([Op::Flush, Op::Update(1, 0)]);
     let mut plans: Vec<(&str, Idx, Vec<Op>, bool)> = vec![
+        ("remove-only/all", Idx::ALL, remove_only, false),
+        ("update-only/all", Idx::ALL, update_only, false),
         ("adds/bare", bare, adds.clone(), true),
         ("adds/all", Idx::ALL, adds.clone(), true),
         ("residue/bare", bare, residue.clone(), false),
